@@ -14,7 +14,8 @@ REGISTRY = {
                      (A + "UnionSelThm", "Api.C01_accept_union"), (A + "AcceptUnionThm", "Api.C01_acceptU"), (A + "AcceptUnionThm", "Api.acceptsU"),
                      (A + "AcceptThm", "Api.compile_noFailU"), (A + "AcceptThm", "Api.acc_accU"), (A + "AcceptThm", "Api.isOk_finishObj"), (A + "AcceptThm", "Api.depMissing_isEmpty"), (A + "ImageThm", "Api.C01_image_partial"),
                      (A + "FieldLoopSrcThm", "Api.fieldLoop_matches_source"), (A + "FieldLoopSrcThm", "Api.fieldLoop_covered"),
-                     (A + "ObjTailSrcThm", "Api.tail_matches_source"), (A + "ObjTailSrcThm", "Api.tail_covered"), (A + "ObjTailSrcThm", "Api.tail_pinned")],
+                     (A + "ObjTailSrcThm", "Api.tail_matches_source"), (A + "ObjTailSrcThm", "Api.tail_covered"), (A + "ObjTailSrcThm", "Api.tail_pinned"),
+                     (A + "ConstraintsSrcThm", "Api.numErrors_matches_source"), (A + "ConstraintsSrcThm", "Api.mergeSrc_spec"), (A + "ConstraintsSrcThm", "Api.merge_bounds_match_source"), (A + "ConstraintsSrcThm", "Api.constraints_pinned")],
         "partial": "C01_acceptU: acceptance <=> `conforms` on Ty.accU (unions of any shape at any depth, dependent_required included; sets, uniqueItems and field-level "
                    "fall_back_on_default outside) for data with distinct keys and no crash-prone leaf; C01_accept: the same on Ty.acc (a union is only Optional) "
                    "for every datum with distinct keys; C01_image_partial: typed image on the index-keyed fragment",
@@ -25,7 +26,8 @@ REGISTRY = {
         "theorems": [(A + "ErrorsThm", "Api.C02_errors_eq_partial"), (A + "ErrorsThm", "Api.errors_eq_violations"),
                      (A + "ObjErrorsThm", "Api.C02_object_level"), (A + "TablesThm", "Api.Tables.C02_error_templates"),
                      (A + "FieldLoopSrcThm", "Api.fieldLoop_matches_source"), (A + "FieldLoopSrcThm", "Api.fieldLoop_dep"), (A + "FieldLoopSrcThm", "Api.fieldLoop_covered"),
-                     (A + "ObjTailSrcThm", "Api.tail_matches_source")],
+                     (A + "ObjTailSrcThm", "Api.tail_matches_source"), (A + "ConstraintsSrcThm", "Api.numErrors_matches_source"), (A + "ConstraintsSrcThm", "Api.strLenErrors_matches_source"),
+                     (A + "ConstraintsSrcThm", "Api.listLenErrors_matches_source"), (A + "ConstraintsSrcThm", "Api.dictErrors_matches_source")],
         "partial": "list equation errors = violations on primitives / lists / tuples / NewTypes / annotations; per-object law (children = violating keys, including `missing property (required by [...])` of dependent_required, "
                    "both directions) for ObjectMethod; order of name-keyed children, mappings and Optional not yet proved",
         "assumptions": MODEL_ASSUMPTIONS,
@@ -108,7 +110,7 @@ REGISTRY["C10"] = {
 
 REGISTRY["C06"] = {
     "engine": "engine_schema",
-    "theorems": [(A + "EndToEnd", "Api.C06_deserialize_iff_schema"), (A + "SchemaThm", "Api.C06_schema_iff_conforms"),
+    "theorems": [(A + "ConstraintsSrcThm", "Api.numErrors_matches_source"), (A + "ConstraintsSrcThm", "Api.merge_bounds_match_source"), (A + "EndToEnd", "Api.C06_deserialize_iff_schema"), (A + "SchemaThm", "Api.C06_schema_iff_conforms"),
                  (A + "SchemaThm", "Api.schema_iff_conforms"), (A + "SchemaThm", "Api.C06_literal_constraint_counterexample"),
                  (A + "SchemaThm", "Api.C06_int_float_counterexample")],
     "partial": "deserialize <=> validates(buildD) on Ty.acc /\\ Ty.sch and sane data; outside: sets, non-string literals, key types other than str, "
